@@ -647,6 +647,8 @@ loop:
 				switch fr.Type() {
 				case FrameSettings:
 					st := fr.Body().(*Settings)
+					sc.ackSettings(st)
+
 					if st.hasWindowSize {
 						delta := int64(int32(st.windowSize)) - int64(curInitialWindow)
 						curInitialWindow = int32(st.windowSize)
@@ -1639,10 +1641,22 @@ func (sc *serverConn) writeLoop() {
 
 func (sc *serverConn) handleSettings(st *Settings) {
 	st.CopyTo(&sc.clientS)
-	sc.enc.SetMaxTableSize(sc.clientS.HeaderTableSize())
 
-	// The per-stream send windows are adjusted in handleStreams, where the
-	// stream table lives. The connection-level window is not affected by
+	// Everything else the frame changes belongs to the stream loop: the HPACK
+	// encoder and the per-stream send windows live there, and the
+	// acknowledgement must not overtake their adjustment. The frame is
+	// forwarded and acknowledged in ackSettings once it has been applied.
+}
+
+// ackSettings acknowledges a SETTINGS frame. It runs on the stream loop, after
+// the values have been applied: the peer is entitled to assume that nothing
+// sent after the acknowledgement was computed with the old values (RFC 7540
+// 6.5.3), which does not hold if the read loop acknowledges while DATA
+// metered against the old window is still being queued.
+func (sc *serverConn) ackSettings(st *Settings) {
+	sc.enc.SetMaxTableSize(st.HeaderTableSize())
+
+	// The connection-level window is not affected by
 	// SETTINGS_INITIAL_WINDOW_SIZE (RFC 7540 6.9.2).
 
 	fr := AcquireFrameHeader()
